@@ -83,6 +83,13 @@ pub fn install_callback_inner() {
     })));
 }
 
+lazy_static::lazy_static! {
+    /// Called (with the events and decisions so far) when a controlled run is stuck for good: every unfinished thread has
+    /// been let go and none has come back to a scheduling point for 20 s, i.e. the code under test deadlocked. The scoped
+    /// threads can never be joined then, so a handler that wants a verdict has to report and end the process itself.
+    pub static ref ON_STUCK: Mutex<Option<Arc<dyn Fn(&[Ev], &[usize]) + Send + Sync>>> = Mutex::new(None);
+}
+
 pub struct Outcome {
     pub events: Vec<Ev>,
     pub decisions: Vec<usize>,
@@ -171,6 +178,13 @@ where
                 st = g;
             }
             if stuck {
+                let handler = ON_STUCK.lock().unwrap().clone();
+                if let Some(h) = handler {
+                    let (e, d) = (st.events.clone(), st.decisions.clone());
+                    drop(st);
+                    h(&e, &d);
+                    st = sched.st.lock().unwrap();
+                }
                 st.aborted = true;
                 sched.cv.notify_all();
                 break;
